@@ -823,6 +823,17 @@ def req_C13(r, tier):
     out.append(("eds.batch:len_mismatch_sigs", "eds.batch %s %s %s" % (lst(hx(t[1]) for t in tr), lst(t[2].hex() for t in tr[:2]), lst(t[3].hex() for t in tr))))
     out.append(("eds.batch:len_mismatch_keys", "eds.batch %s %s %s" % (lst(hx(t[1]) for t in tr), lst(t[2].hex() for t in tr), lst(t[3].hex() for t in tr[:1]))))
     out.append(("eds.batch:len_mismatch_all_differ", "eds.batch %s %s %s" % (lst(hx(t[1]) for t in tr[:1]), lst(t[2].hex() for t in tr[:2]), lst(t[3].hex() for t in tr))))
+    # transcript history: the sequence of (label, message) operations on the merlin transcript must be the specified one
+    for n in (0, 1, 2, 3, 5):
+        tr = list(base[:n])
+        out.append(("eds.batch_transcript:valid:n=%d" % n, batch_line(tr).replace("eds.batch ", "eds.batch_transcript ", 1)))
+        if n >= 1:
+            tr2 = [list(t) for t in tr]
+            tr2[0][2] = tr2[0][2][:32] + tole((le(tr2[0][2][32:]) + 3) % L)
+            out.append(("eds.batch_transcript:badS:n=%d" % n, batch_line(tr2).replace("eds.batch ", "eds.batch_transcript ", 1)))
+            tr3 = [list(t) for t in tr]
+            tr3[-1][2] = tr3[-1][2][:32] + tole(le(tr3[-1][2][32:]) + L)
+            out.append(("eds.batch_transcript:noncanonS:n=%d" % n, batch_line(tr3).replace("eds.batch ", "eds.batch_transcript ", 1)))
     # single verification of the same triples (agreement with individual verification)
     for sd, m, sig, pk in base:
         out.append(("eds.verify:single", "eds.verify %s %s %s" % (pk.hex(), hx(m), sig.hex())))
@@ -945,7 +956,8 @@ def req_C15(r, tier):
         for op in ("ed.decompress", "ris.decompress", "sc.canonical", "sc.reduce", "eds.vk", "eds.vk_to_montgomery", "x.pubkey_bytes", "grp.ed_from_bytes", "grp.sub_from_bytes",
                    "grp.ris_from_bytes", "grp.from_repr", "eds.keygen", "sc.clamp", "mont.elligator", "ris.elligator", "fe.roundtrip", "fe.invert", "fe.invsqrt"):
             out.append((op, "%s %s" % (op, h)))
-        out.append(("mont.to_edwards", "mont.to_edwards %s %d" % (h, r.below(2))))
+        out.append(("mont.to_edwards", "mont.to_edwards %s 0" % h))
+        out.append(("mont.to_edwards", "mont.to_edwards %s 1" % h))
         out.append(("x.x25519", "x.x25519 %s %s" % (r.bytes(32).hex(), h)))
         out.append(("x.x25519:k", "x.x25519 %s %s" % (h, r.bytes(32).hex())))
         out.append(("x.static", "x.static %s %s" % (r.bytes(32).hex(), h)))
@@ -970,6 +982,14 @@ def req_C15(r, tier):
     for v in (0, 1, P - 1, SQRT_M1, inv(2), (P - 1) // 2, sqrt(inv(2) % P) or 3):
         out.append(("mont.elligator:special", "mont.elligator " + H(v)))
         out.append(("ris.elligator:special", "ris.elligator " + H(v)))
+    # hash-to-group with a pass-through digest: reaches the algebraically exceptional Elligator inputs directly
+    exc = [0, 1, P - 1, P, P + 1, SQRT_M1, P - SQRT_M1, inv(2), (P - 1) // 2, M255, 2, 3, 4, 5, 7]
+    for v in exc:
+        for top in (0, 1):
+            d = tole((v & M255) | (top << 255)) + r.bytes(32)
+            out.append(("ed.nonspec_map_raw:exceptional", "ed.nonspec_map_raw " + d.hex()))
+    for i in range(sz(tier, 40, 600)):
+        out.append(("ed.nonspec_map_raw:rand", "ed.nonspec_map_raw " + r.bytes(64).hex()))
     # malformed batches
     tr = honest_triples(r, 4)
     out.append(("eds.batch:len_mismatch", "eds.batch %s %s %s" % (lst(hx(t[1]) for t in tr[:2]), lst(t[2].hex() for t in tr), lst(t[3].hex() for t in tr[:3]))))
